@@ -892,6 +892,21 @@ async fn exec<const N: usize>(st: &mut St<N>, ctx: &mut Ctx, toks: &[&str]) {
                         Err(_) => "Panic".into(),
                     }
                 }
+                ("recover_quarantined", [id, every, skip]) => {
+                    // the recovery tool run on the file in the quarantine directory (what an operator does after a crash)
+                    let i = st.dir.join(&st.cfg.corrdir).join(format!("{}.{}.blob", st.cfg.prefix, id));
+                    let o = out(id);
+                    let every: usize = every.parse().unwrap();
+                    let skip = *skip == "1";
+                    if !i.exists() { "absent".into() } else {
+                        let res = std::thread::spawn(move || pearl::tools::recovery_blob(&i, &o, every, skip).is_ok()).join();
+                        match res {
+                            Ok(true) => format!("ok {}", std::fs::metadata(out(id)).map(|m| m.len()).unwrap_or(0)),
+                            Ok(false) => "Err".into(),
+                            Err(_) => "Panic".into(),
+                        }
+                    }
+                }
                 ("validate_out", [id]) => match pearl::tools::validate_blob(&out(id)) { Ok(()) => "ok".into(), Err(_) => "Err".into() },
                 ("outhex", [id]) => match std::fs::read(out(id)) { Ok(b) => hex_encode(&b), Err(_) => "absent".into() },
                 ("install", [id]) => {
